@@ -455,6 +455,9 @@ def main():
         chk.violation('%s export of %r: %s' % (b['kind'], b['grammar'][:50], b['detail']), b)
     for pr in repository_models_scenario()[:2]:
         chk.violation(pr, {'repository_models': True})
+    for pr in file_overwrite_scenario()[:2]:
+        chk.violation(pr, {'file_overwrite': True})
+    checked += 3
     checked += 4
     chk.cov['bounds']['repository_models'] = 'file model with an import / string model loaded afterwards, global repository on/off (concrete)'
     if checked == 0:
@@ -507,7 +510,53 @@ def repository_models_scenario():
         shutil.rmtree(tmp, ignore_errors=True)
 
 
+def file_overwrite_scenario():
+    """the path-based exports (model_export, metamodel_export with both renderers): a second, smaller export
+    to the same path leaves exactly the new graph in the file"""
+    import os
+    import shutil
+    import tempfile
+    from textx import metamodel_from_str, get_children
+    from textx.export import model_export, metamodel_export, PlantUmlRenderer
+    tmp = tempfile.mkdtemp(prefix='c29f_')
+    problems = []
+    try:
+        mm_big = metamodel_from_str(GRAMMAR)
+        mm_small = metamodel_from_str("Tiny: 't' name=ID;")
+        big = mm_big.model_from_str('model m named "aaaaaaaaaaaaaaaa" label "llllllllllll" tags "t1", "t2", "t3" named "z" bag b named "n", 3')
+        small = mm_small.model_from_str('t x')
+        p1 = os.path.join(tmp, 'model.dot')
+        model_export(big, p1)
+        model_export(small, p1)
+        try:
+            validate_dot(open(p1).read(), [id(o) for o in [small] + list(get_children(lambda x: True, small))])
+        except DotError as e:
+            problems.append('model_export to a path that held a bigger export: %s' % e)
+        p2 = os.path.join(tmp, 'mm.dot')
+        metamodel_export(mm_big, p2)
+        metamodel_export(mm_small, p2)
+        text = open(p2).read()
+        try:
+            parse_dot(text)
+        except DotError as e:
+            problems.append('metamodel_export to a path that held a bigger export: %s' % e)
+        if 'Named' in text:
+            problems.append('metamodel_export to a path that held a bigger export: classes of the old metamodel remain')
+        p3 = os.path.join(tmp, 'mm.pu')
+        metamodel_export(mm_big, p3, renderer=PlantUmlRenderer())
+        metamodel_export(mm_small, p3, renderer=PlantUmlRenderer())
+        text = open(p3).read()
+        if text.count('@enduml') != 1 or text.count('{') != text.count('}') or 'Named' in text:
+            problems.append('PlantUML metamodel_export to a path that held a bigger export leaves old content')
+        return problems
+    finally:
+        shutil.rmtree(tmp, ignore_errors=True)
+
+
 def replay(data):
+    if data.get('file_overwrite'):
+        pr = file_overwrite_scenario()
+        return bool(pr), pr[:2]
     if data.get('repository_models'):
         pr = repository_models_scenario()
         return bool(pr), pr[:2]
